@@ -200,7 +200,17 @@ def _graph_case(case, res):
     k1 = sum(k * p for k, p in fr.items())
     k2 = sum(k * (k - 1) * p for k, p in fr.items())
     try:
-        psi, psiP, psiPP = EoN.get_PGF(Pk), EoN.get_PGFPrime(Pk), EoN.get_PGFDPrime(Pk)
+        Pk_arg = dict(Pk)
+        psi, psiP, psiPP = EoN.get_PGF(Pk_arg), EoN.get_PGFPrime(Pk_arg), EoN.get_PGFDPrime(Pk_arg)
+        if r.random() < 0.5:
+            # the caller goes on using its dict (one buffer refilled across a sweep of networks; pop(0) and renormalise): the functions
+            # already handed out remain the generating functions of the distribution they were built from
+            for k_ in list(Pk_arg):
+                Pk_arg[k_] = 0.0
+            Pk_arg.pop(max(Pk_arg))
+            Pk_arg[0] = 0.25
+            Pk_arg[9] = 0.75
+            bump(res, 'pgf_evaluated_after_the_callers_dict_was_refilled')
         pts = [1.0] + [r.uniform(0.01, 1) for _ in range(4)] + [r.choice([0.5, 0.25, 1e-3])]
         for x in pts:
             e0 = sum(float(p) * x ** k for k, p in fr.items())
